@@ -87,6 +87,8 @@ def plan(tier, seed):
         for axis in range(nd):
             for pattern in itertools.product((0, 1), repeat=3):
                 cases.append(dict(key=f"contact/{fk}/axis={axis}/closed={pattern}", kind="contact", mesh=mk, fk=fk, axis=axis, pattern=pattern, amp=0.02, seed=seed, tier=tier))
+                if pattern in ((1, 1, 1), (1, 0, 1), (0, 0, 0)):
+                    cases.append(dict(key=f"contact/{fk}/axis={axis}/closed={pattern}/touching", kind="contact", mesh=mk, fk=fk, axis=axis, pattern=pattern, offset=0.0, amp=0.02, seed=seed, tier=tier))
     for fk, mk in (("3d", "hexahedron"), ("ps", "quad"), ("axi", "quad"), ("mixed3d", "hexahedron")):
         for item in ("pointload", "force", "gravity"):
             cases.append(dict(key=f"{item}/{fk}", kind="load", item=item, mesh=mk, fk=fk, amp=0.1, seed=seed, tier=tier))
@@ -412,7 +414,7 @@ def run(case):
         tw = zoo.renumber(zoo.make(case["mesh"], "block", seed), seed)
         pts = np.where(np.isclose(tw.points[:, ax], tw.points[:, ax].max()))[0][:3]
         centre = mesh.points.max(0) + 0.0
-        centre[ax] += 0.3  # rigid plane 0.3 beyond the face x_ax = max
+        centre[ax] += case.get("offset", 0.3)  # rigid plane 0.3 beyond the face x_ax = max (offset 0: the plane touches the face, initial gap exactly zero)
         mesh2 = fem.Mesh(np.vstack([mesh.points, centre]), mesh.cells, mesh.cell_type)
         region2 = zoo.region(case["mesh"], mesh2)
         F = fem.Field if case["fk"] == "3d" else fem.FieldPlaneStrain
@@ -435,7 +437,11 @@ def run(case):
         r = con.assemble.vector(field).toarray().reshape(-1, nd)
         active = int((np.abs(r[pts, ax]) > 0).sum())
         c.outcomes.add(f"closed={active}")
-        if active != sum(case["pattern"]):
+        if case.get("offset", 0.3) == 0.0:
+            # (with an initial gap of exactly zero felupe's sign test makes the contact act in both directions: recorded, the
+            #  decided statement is the derivative)
+            c.outcomes.add("zero-initial-gap")
+        elif active != sum(case["pattern"]):
             c.bad("pattern", "number of closed contact points", active, sum(case["pattern"]))
         return c.result(dict(case=case["key"], unknowns=int(values_of(field).size), closed=active))
     if kind == "load":
